@@ -16,6 +16,7 @@ package prometheus
 import (
 	"fmt"
 	"sync"
+	"unicode/utf8"
 
 	"github.com/prometheus/common/model"
 )
@@ -164,10 +165,11 @@ func (m *MetricVec) CurryWith(labels Labels) (*MetricVec, error) {
 			if !ok {
 				continue // Label stays uncurried.
 			}
-			newCurry = append(newCurry, curriedLabelValue{
-				i,
-				m.desc.variableLabels.constrain(labelName, val),
-			})
+			val = m.desc.variableLabels.constrain(labelName, val)
+			if !utf8.ValidString(val) {
+				return nil, fmt.Errorf("label %s: value %q is not valid UTF-8", labelName, val)
+			}
+			newCurry = append(newCurry, curriedLabelValue{i, val})
 		}
 	}
 	if l := len(oldCurry) + len(labels) - len(newCurry); l > 0 {
